@@ -102,6 +102,13 @@ claim("C16",
       "The check found the Unregister/setDelegate lock-order inversion (fixed, see KNOWN_FINDINGS.txt).",
       _TB + "sync.Mutex semantics assumed; third-party SDK calls and container/list are unknown calls (frames and no-panic of these functions are marked unchecked). Not decided: atomic.Value forwarding of instruments/tracers, state.go once-only installation.",
       "DESIGN.md 4 C16")
+claim("C06",
+      "Proof for every queue state, capacity and buffer length: the record queue is a FIFO over a cyclic list (ghost numbering of the ring nodes; well-formedness is the invariant of the queue's lock, re-established at every unlock): "
+      "Enqueue appends, and when full drops exactly the OLDEST record, counts it and keeps the order of the rest; TryDequeue copies the oldest min(len(buf), len) records in order, offers them to write as one batch never longer than buf, "
+      "removes them iff write returned true and otherwise leaves the queue exactly as it was; Flush returns everything oldest-first and empties the queue; chunkExporter hands on consecutive non-empty pieces of at most `size` records that cover its input; "
+      "OnEmit enqueues only while not stopped and enqueues a clone sharing no attribute storage; bufferExporter sends on its channel only under inputMu while not stopped and closes it only under inputMu after setting stopped (once).",
+      _TB + "sync.Mutex/atomic semantics assumed; calls through function values and unknown interface methods are treated as side-effect free; newQueue is a trusted contract. Not decided: channel hand-over to the export goroutine, single-exporter-call enumeration, poll loop.",
+      "DESIGN.md 4 C06")
 _todo = "check not built yet in this session (engine exists; contracts for this property's functions still to be written)"
-for _p in ["C01","C06","C11"]:
+for _p in ["C01","C11"]:
     na(_p, _todo)
